@@ -201,3 +201,22 @@ Proof.
     split; [repeat constructor; unfold small; vm_compute; discriminate|].
     repeat split; vm_compute; reflexivity.
 Qed.
+
+(* ---------- tools/gotrans phase 3: StrMap.Get / Len / Item regenerated from container/strmap/strmap.go and proved equal to Model/StrMap.v (Proofs/GenEquivStrMap.v); the lookup theorems therefore hold of the regenerated definitions ---------- *)
+From GV Require Import Lib.GoSem Gen.Funcs Proofs.GenLib Proofs.GenLib3 Proofs.GenEquivStrMap Proofs.GenCorollariesStrMap.
+
+Theorem C07_gen_get_spec :
+  forall (V : Type) (zV : V) (hash : bytes -> N) (sort : list (item V) -> list (item V)), sort_ok sort -> forall (st : strmap V) (kk : list bytes) (vv : list V) (s : bytes) (fuel : nat), Datatypes.length kk = Datatypes.length vv -> NoDup kk -> loadable kk -> let st' := fst (load hash sort st kk vv) in glen_ok (data st') -> (S (Datatypes.length kk) < fuel)%nat -> g_strmap_Get V zV (xhash hash) fuel false (data st') (gitems V st') (table st') s = Ok (data st', gitems V st', table st', match assoc kk vv s with | Some v => v | None => zV end, match assoc kk vv s with | Some _ => true | None => false end).
+Proof. exact (@g_C07_get_spec). Qed.
+
+Theorem C07_gen_len_spec :
+  forall (V : Type) (zV : V) (hash : bytes -> N) (sort : list (item V) -> list (item V)), sort_ok sort -> forall (st : strmap V) (kk : list bytes) (vv : list V), Datatypes.length kk = Datatypes.length vv -> loadable kk -> let st' := fst (load hash sort st kk vv) in g_strmap_Len V zV false (data st') (gitems V st') (table st') = Ok (data st', gitems V st', table st', Z.of_N (len kk)).
+Proof. exact (@g_C07_len_spec). Qed.
+
+Theorem C07_gen_item_transfer :
+  forall (V : Type) (zV : V) (hash : bytes -> N) (sort : list (item V) -> list (item V)), sort_ok sort -> forall (st : strmap V) (kk : list bytes) (vv : list V) (i : Z) (k : bytes) (v : V), Datatypes.length kk = Datatypes.length vv -> loadable kk -> let st' := fst (load hash sort st kk vv) in glen_ok (data st') -> item_at st' i = Ok (k, v) -> g_strmap_Item V zV false (data st') (gitems V st') (table st') i = Ok (data st', gitems V st', table st', k, v).
+Proof. exact (@g_C07_item_transfer). Qed.
+
+Theorem C07_gen_get_unloaded :
+  forall (V : Type) (zV : V) (hash : bytes -> N) (s : bytes) (fuel : nat), g_strmap_Get V zV (xhash hash) fuel false [] [] [] s = Ok ([], [], [], zV, false).
+Proof. exact (@g_C07_get_unloaded). Qed.
